@@ -54,7 +54,9 @@ fn main() {
                 batch_seed: env_u64("VERIF_SEED").unwrap_or(DEFAULT_SEED),
                 runs_override: env_u64("VERIF_RUNS"),
                 max_s: env_u64("VERIF_MAX_S").unwrap_or(if tier == "quick" { 600 } else { 6 * 3600 }),
-                per_run_wall_s: 120,
+                // a worker that shows no progress for this long is killed (hang detection); the thorough tier runs larger
+                // worlds, possibly next to other jobs, and gets more slack
+                per_run_wall_s: if tier == "quick" { 120 } else { 300 },
                 asan_bin: std::env::var("VERIF_ASAN_BIN").ok().filter(|p| std::path::Path::new(p).exists()),
             };
             resolvo_sim::run::set_quiet(true);
